@@ -21,6 +21,21 @@ def poly_add(p, q, sign=1):
     return {k: c for k, c in r.items() if c != 0}
 
 
+def poly_close(p, q, rtol=1e-13):
+    """
+    Equality of two path polynomials up to the rounding of the library's own float additions: coefficients
+    are dyadic by construction (then every sum is exact and this is plain equality), except for the
+    deliberately nearly-equal coefficients c*(1 +- 2^-24), whose sums may round in the last bit.
+    """
+    if p == q:
+        return True
+    scale = max([1.0] + [abs(complex(c)) for c in list(p.values()) + list(q.values())])
+    for k in set(p) | set(q):
+        if abs(complex(p.get(k, 0)) - complex(q.get(k, 0))) > rtol * scale:
+            return False
+    return True
+
+
 def fr(c):
     return Fraction(c) if not isinstance(c, complex) else c
 
@@ -104,15 +119,21 @@ class GObj:
 class CountingCallable:
     """Simulated user callable for AutOpEdge.active / .opics (environment kind CBCALLS)."""
 
-    def __init__(self, table, log, L):
+    def __init__(self, table, log, L, reuse_buffer=False):
         self.table = table
         self.log = log
         self.L = L
+        self.reuse_buffer = reuse_buffer
+        self.buf = []
 
     def __call__(self, i):
         self.log.append(i)
         if not (isinstance(i, (int, np.integer)) and 0 <= i < self.L):
             raise IndexError(f'callable invoked with site index {i!r} outside 0..{self.L - 1}')
+        if self.reuse_buffer:
+            # a user callable that refills and returns one list object (CBBUF)
+            self.buf[:] = self.table[i]
+            return self.buf
         return self.table[i]
 
 
@@ -295,8 +316,8 @@ class GRSession(SessionBase):
         except Exception as e:
             self.check(False, props, 'traversable', f'{what}: {type(e).__name__}: {e}')
             return False
-        ok &= self.check(p1 == p0, props, 'direction_agree', lambda: f'{what}: path polynomial differs between traversal directions')
-        ok &= self.check(p1 == want, props, 'meaning', lambda: f'{what}: denoted operator differs: got {self.fmt(p1)} expected {self.fmt(want)}')
+        ok &= self.check(poly_close(p1, p0), props, 'direction_agree', lambda: f'{what}: path polynomial differs between traversal directions')
+        ok &= self.check(poly_close(p1, want), props, 'meaning', lambda: f'{what}: denoted operator differs: got {self.fmt(p1)} expected {self.fmt(want)}')
         return ok
 
     @staticmethod
@@ -355,9 +376,40 @@ class GRSession(SessionBase):
         ptn = self.ptn
         L = self.L
         spec = [c for c in op['chains'] if c['istart'] + len(c['oids']) <= L]
+        store = getattr(self, 'chain_store', None)
+        if store is None:
+            store = self.chain_store = []
+        chains = None
+        ridx = None
+        if 'reuse' in op and store:
+            ridx = int(op['reuse']) % len(store)
+            chains, spec = store[ridx]
+            mu = op['mutate']
+            k = int(mu['which']) % len(chains)
+            spec = [dict(c, oids=list(c['oids']), qnums=list(c['qnums'])) for c in spec]
+            if mu['what'] == 'coeff' or not self.charged and False:
+                chains[k].coeff = mu['coeff']
+                spec[k]['coeff'] = mu['coeff']
+            else:
+                pos = int(mu['pos']) % len(chains[k].oids)
+                old_oid = chains[k].oids[pos]
+                if self.ch.get(int(mu['oid']), 0) == self.ch.get(int(old_oid), 0):
+                    chains[k].oids[pos] = int(mu['oid'])
+                    spec[k]['oids'][pos] = int(mu['oid'])
+                else:
+                    chains[k].coeff = mu['coeff']
+                    spec[k]['coeff'] = mu['coeff']
+            self.probe('chain_objects_reused_after_inplace_update')
+            store[ridx] = (chains, spec)
         if not any(c['coeff'] != 0 for c in spec):
             return 'skipped'
-        chains = [ptn.OpChain(list(c['oids']), list(c['qnums']), c['coeff'], c['istart']) for c in spec]
+        if chains is None:
+            chains = [ptn.OpChain(list(c['oids']), list(c['qnums']), c['coeff'], c['istart']) for c in spec]
+            store.append((chains, spec))
+            if len(store) > 4:
+                store.pop(0)
+        else:
+            store[ridx] = (chains, spec)      # the same objects, now with their updated description
         before = [(list(c.oids), list(c.qnums), c.coeff, c.istart) for c in chains]
         snap, g, exc = self.guarded(op, lambda: ptn.OpGraph.from_opchains(chains, L, 0), ('C05',))
         self.bystanders_unchanged(snap, set())
@@ -439,7 +491,9 @@ class GRSession(SessionBase):
             opics = e.get('opics')
             if 'opics_table' in e:
                 tab = [[(int(a), b) for a, b in (row or [])] for row in e['opics_table']]
-                opics = CountingCallable(tab, calls, L)
+                opics = CountingCallable(tab, calls, L, reuse_buffer=bool(e.get('opics_buf')))
+                if e.get('opics_buf'):
+                    self.env.fire('CBBUF')
                 ncall += 1
             else:
                 opics = [(int(a), b) for a, b in opics]
